@@ -313,8 +313,33 @@ class ProxyCallMethod(Unit):
         me = Rec(ex, 'self', immutable=True, methods={'_connect': Fn(connect)})
         me.init(st, _server=server, _tls=Tls(ex, 'tls'), _id=self.id, _token=Rec(ex, 'token', immutable=True).init(st, id=self.token_id, typeid=z3.Const('typeid', Val)))
         st.env.update(self=me, methodname=self.mname, args=self.args, kwds=self.kwds)
-        ex.globals['convert_to_error'] = Fn(lambda e, s, a, k, n: [('ok', s.fork().assume(V.isinst(conv(box(e, a[0]), box(e, a[1])), 'Exception')), conv(box(e, a[0]), box(e, a[1])))])
-        st.assume(V.is_strv(self.kind))
+        ERR = V.strv(S('#ERROR'))
+        self.inner_exc = z3.Const('exception_carried_by_the_RemoteException', Val)
+
+        def convert(e, s, a, k, n):
+            # stdlib convert_to_error: for '#ERROR' the payload itself; otherwise a RemoteError / ValueError built from it
+            kind, res = box(e, a[0]), box(e, a[1])
+            c = conv(kind, res)
+            s = s.fork().assume(z3.If(kind == ERR, c == res, V.isinst(c, 'Exception')), *V.cls_facts(c))
+            return [('ok', s, c)]
+        ex.globals['convert_to_error'] = Fn(convert, trusted='stdlib convert_to_error(kind, result): result itself for "#ERROR", a RemoteError/ValueError otherwise (managers.py:95-108)')
+        ex.globals['RemoteException'] = ExcClass('RemoteException')
+        st.assume(V.is_strv(self.kind), *V.cls_facts(self.result))
+        if self.in_server:
+            # no pickling on this path: an '#ERROR' payload is the RemoteException object itself (not an exception!), carrying the method's exception
+            st.assume(z3.Implies(self.kind == ERR, z3.And(V.isinst(self.result, 'RemoteException'), z3.Not(V.isinst(self.result, 'BaseException')))),
+                      V.isinst(self.inner_exc, 'Exception'), *V.cls_facts(self.inner_exc))
+            unit = self
+
+            class Payload:
+                def getattr(self_, e, s, base, attr, node):
+                    if attr == 'exc':
+                        return [('ok', s, unit.inner_exc)]
+                    raise Unsupported(f'result.{attr}')
+            ex.sym_models['result'] = Payload()
+        else:
+            # the payload crossed the connection: a RemoteException unpickles to the exception it carries (C15)
+            st.assume(z3.Implies(self.kind == ERR, V.isinst(self.result, 'Exception')))
         return st
 
     def post(self, ex, outs):
@@ -332,13 +357,17 @@ class ProxyCallMethod(Unit):
             if k in ('normal', 'return'):
                 ex.oblige(s, f'exit: {what}; a "#RETURN"/"#PROXY" response is returned as is', z3.And(sent, good, box(ex, p) == self.result))
             else:
-                ex.oblige(s, f'exit(raise): {what}; any other response is raised as convert_to_error(kind, result) -- for "#ERROR" the method\'s own exception', z3.And(sent, z3.Not(good), box(ex, p) == conv(self.kind, self.result)))
+                ERR = V.strv(S('#ERROR'))
+                own = self.inner_exc if self.in_server else self.result
+                ex.oblige(s, f'exit(raise): {what}; any other response is raised as an exception: for "#ERROR" the method\'s own exception (the one the RemoteException carries), otherwise convert_to_error(kind, result)',
+                          z3.And(sent, z3.Not(good), V.isinst(p, 'BaseException'), z3.If(self.kind == ERR, box(ex, p) == own, V.isinst(p, 'Exception'))))
 
 
 class ProxyCallMethodInServer(ProxyCallMethod):
     variant = 'in-server'
     in_server = True
-    canaries = (('short-cut calls the method under the proxy id of another namespace', 'None, self._token.id, methodname, args, kwds', 'None, self._token.typeid, methodname, args, kwds', ''),)
+    canaries = (('short-cut calls the method under the proxy id of another namespace', 'None, self._token.id, methodname, args, kwds', 'None, self._token.typeid, methodname, args, kwds', ''),
+                ('the un-pickled RemoteException itself is raised (pinned-tree defect: TypeError)', "            if kind == '#ERROR' and isinstance(result, RemoteException):", "            if False:", ''))
 
 
 # ------------------------------------------------------------------ proxy methods
@@ -459,6 +488,67 @@ class GeneratedProxyMethod(ProxyMethod):
             raise KeyError('generated function has another name')
         ast.increment_lineno(gen, fn.lineno)
         return gen, sha, seg
+
+
+class MakeProxyType(Unit):
+    """AutoProxy.<locals>.make_proxy_type(name, exposed): the proxy class for an object has exactly that object's exposed methods.  The class cache
+    must therefore be keyed by (name, exposed) -- two objects registered under one typeid may have different method sets."""
+    prop = 'C14'
+    file = F
+    qual = 'AutoProxy.<locals>.make_proxy_type'
+    canaries = (('class cache keyed by the name only', 'return _cache[(name, exposed)]', 'return _cache[name]', ''),
+                ('class cached under the name only', '_cache[(name, exposed)] = ProxyType', '_cache[name] = ProxyType', ''),
+                ('methods generated for another set', 'ProxyType = add_proxy_methods(*exposed)(type(name, (BaseProxy,), {}))', 'ProxyType = add_proxy_methods()(type(name, (BaseProxy,), {}))', ''))
+
+    def setup(self, ex):
+        from pyvc.models import SharedMap
+        st = St()
+        self.pname, self.exposed = z3.Const('name', Val), z3.Const('exposed', Val)
+        self.methods_of = z3.Function('methods_of_class', Val, Val)
+        self.cache = SharedMap(ex, '_cache').init(st, z3.Const('cache0', z3.ArraySort(Val, Val)), z3.Int('ncache0'))
+        self.tupled = z3.Function('tuple', Val, Val)
+        self.key = V.tup(V.seq_of([self.pname, self.tupled(self.exposed)]))
+        # cache invariant (established by this very function at every insertion): the class stored under (n, e) has methods e
+        from pyvc.models import Absent
+        hit = z3.Select(self.cache.arr(st), self.key)
+        st.assume(z3.Implies(hit != Absent, self.methods_of(hit) == self.tupled(self.exposed)), self.tupled(self.tupled(self.exposed)) == self.tupled(self.exposed))
+        st.env.update(name=self.pname, exposed=self.exposed, _cache=self.cache)
+        ex.globals['tuple'] = Fn(lambda e, s, a, k, n: [('ok', s, StarPack(self.tupled(box(e, a[0]))))])       # a tuple of unknown length: passed on as one pack
+        ex.globals['BaseProxy'] = z3.Const('BaseProxy', Val)
+        st.ghost['made'] = ()
+
+        def type_(e, s, a, k, n):
+            return [('ok', s, z3.Const('new_class', Val))]
+        ex.globals['type'] = Fn(type_)
+
+        def add_proxy_methods(e, s, a, k, n):
+            star = [x for x in a if isinstance(x, StarPack)]
+            names = star[0].val if len(star) == 1 and len(a) == 1 else (V.tup(V.seq_of([box(e, x) for x in a])) if not star else None)
+
+            def deco(e2, s2, a2, k2, n2):
+                cls = fresh('ProxyType')
+                s2 = s2.fork().assume(self.methods_of(cls) == (names if names is not None else fresh('unknown_methods')), cls != Absent)
+                s2.ghost['made'] = s2.ghost['made'] + (cls,)
+                return [('ok', s2, cls)]
+            return [('ok', s, Fn(deco))]
+        ex.globals['add_proxy_methods'] = Fn(add_proxy_methods)
+        return st
+
+    def interfere(self, ex, st, m, node):
+        pass
+
+    def on_call(self, ex, st, e, src):
+        return None
+
+    def after_map_write(self, ex, st, m, kind, k, v, node):
+        ex.oblige(st, f'line {node.lineno}: a new proxy class is cached under (name, its own method set) -- the key determines the methods', z3.And(k == self.key, self.methods_of(v) == self.tupled(self.exposed)))
+
+    def post(self, ex, outs):
+        for k, s, p in outs:
+            if k in ('normal', 'return'):
+                ex.oblige(s, 'exit: the class returned has exactly the exposed methods of THIS object (cache hit or newly generated)', self.methods_of(box(ex, p)) == self.tupled(self.exposed))
+            else:
+                ex.oblige(s, 'exit: does not raise', False)
 
 
 class DecoratorNames(Unit):
@@ -609,8 +699,9 @@ class C14Lemma(LemmaUnit):
 
 
 from contracts.c13 import ServerCreate, ServerCreateBadArgs, ServerCreateTyped, ServerCreateCallable, Managed, ManagedOutside      # noqa: E402  managed() values are live proxies to the hosted value itself
-UNITS = [ServerCallMethod, ServerCallMethodTyped, ServeClient, ProxyCallMethod, ProxyCallMethodInServer, GeneratedProxyMethod, DecoratorNames,
+UNITS = [ServerCallMethod, ServerCallMethodTyped, ServeClient, ProxyCallMethod, ProxyCallMethodInServer, GeneratedProxyMethod, MakeProxyType, DecoratorNames,
          NamespaceAttr, NamespaceSetAttr, NamespaceDelAttr] + PROXY_METHODS + [ServerCreate, ServerCreateBadArgs, ServerCreateTyped, ServerCreateCallable, Managed, ManagedOutside, C14Lemma]
-SCENARIOS = [('', 'replay/scenarios/c14_proxy_vs_direct.py')]
+ALWAYS_RUN_SCENARIOS = True      # both batteries together take about 3 s; they are the bounded stand-in for operation sequences
+SCENARIOS = [('BaseProxy._callmethod', 'replay/scenarios/c14_in_server_error.py'), ('', 'replay/scenarios/c14_proxy_vs_direct.py')]
 BOUNDED = [{'function': 'operation sequences through several proxies / threads / a child process', 'method': 'runtime scenario replay/scenarios/c14_proxy_vs_direct.py (differential against local objects)', 'bound': '6 seeds x 60 operations x 3 object kinds + fixed Value/Namespace/managed()/thread/child script', 'counted_as_proved': False}]
 THOROUGH_SCENARIOS = [('', 'replay/scenarios/c14_proxy_vs_direct.py', (6, 30, 150), 600)]
